@@ -43,6 +43,9 @@ type c17World struct {
 	preGOn []bool
 	preBeg []chan struct{}
 	spDone []chan error
+	postG  []chan struct{} // PostStop gate per actor (nil: not gated)
+	deactG []chan struct{} // OnDeactivate gate per grain (nil: not gated)
+	deactB []chan struct{} // OnDeactivate began
 }
 
 func (w *c17World) log(who, kind string, err error) {
@@ -91,6 +94,9 @@ func (a *c17Actor) Receive(ctx *ReceiveContext) {
 }
 func (a *c17Actor) PostStop(*Context) error {
 	a.w.log(a.who(), "postB", nil)
+	if g := a.w.postG[a.id]; g != nil {
+		<-g
+	}
 	a.w.nPost[a.id].Add(1)
 	a.w.log(a.who(), "postE", nil)
 	return nil
@@ -112,7 +118,14 @@ func (g *c17Grain) OnReceive(ctx *GrainContext) {
 	ctx.NoErr()
 }
 func (g *c17Grain) OnDeactivate(context.Context, *GrainProps) error {
-	if g.id%2 == 1 {
+	g.w.log(g.who(), "deactB", nil)
+	if gate := g.w.deactG[g.id]; gate != nil {
+		select {
+		case g.w.deactB[g.id] <- struct{}{}:
+		default:
+		}
+		<-gate
+	} else if g.id%2 == 1 {
 		// odd grains are slow to deactivate: Stop has to wait for them
 		time.Sleep(25 * time.Millisecond)
 	}
@@ -124,13 +137,16 @@ func (g *c17Grain) OnDeactivate(context.Context, *GrainProps) error {
 type c17Scenario struct {
 	N       int       `json:"n"`
 	K       int       `json:"k"`
+	Gated   []int     `json:"gated"`
+	PassG   []int     `json:"pass_grains"`
 	Actions [][]any   `json:"actions"`
 	Expect  [][][]int `json:"expect"`
 }
 
 type c17Step struct {
-	F int     `json:"f"`
-	O [][]int `json:"o"`
+	F       int     `json:"f"`
+	O       [][]int `json:"o"`
+	Timeout bool    `json:"timeout"`
 }
 
 type c17Out struct {
@@ -157,7 +173,18 @@ func c17RunScenario(t *testing.T, idx int, sc c17Scenario) c17Out {
 	w := &c17World{n: n, k: k, pids: make([]*PID, n), idents: make([]*GrainIdentity, k),
 		nPost: make([]atomic.Int32, n), nPre: make([]atomic.Int32, n), nAct: make([]atomic.Int32, k), nDeact: make([]atomic.Int32, k),
 		inRecv: make([]atomic.Int32, n), gate: make([]chan struct{}, n), preG: make([]chan struct{}, n), preGOn: make([]bool, n),
-		preBeg: make([]chan struct{}, n), spDone: make([]chan error, n)}
+		preBeg: make([]chan struct{}, n), spDone: make([]chan error, n), postG: make([]chan struct{}, n),
+		deactG: make([]chan struct{}, k), deactB: make([]chan struct{}, k)}
+	for _, a := range sc.Gated {
+		w.postG[a] = make(chan struct{})
+	}
+	for _, g := range sc.PassG {
+		w.deactG[g] = make(chan struct{})
+		w.deactB[g] = make(chan struct{}, 4)
+	}
+	released := make([]bool, n)
+	stopDone := make(chan struct{})
+	stopIssued := false
 	for i := 0; i < n; i++ {
 		w.gate[i] = make(chan struct{})
 		w.preG[i] = make(chan struct{})
@@ -183,11 +210,20 @@ func c17RunScenario(t *testing.T, idx int, sc c17Scenario) c17Out {
 			if p != nil {
 				run = p.IsRunning()
 			}
-			out = append(out, []int{b(w.nPost[a].Load() > 0), b(run)})
+			out = append(out, []int{int(w.nPost[a].Load()), b(run)})
 		}
 		for g := 0; g < k; g++ {
 			act := w.nAct[g].Load() > w.nDeact[g].Load()
 			out = append(out, []int{int(w.nAct[g].Load()), int(w.nDeact[g].Load()), b(act)})
+		}
+		if stopIssued {
+			select {
+			case <-stopDone:
+				phase = 3
+				stopped = true
+			default:
+				phase = 1
+			}
 		}
 		out = append(out, []int{phase})
 		return out
@@ -207,10 +243,46 @@ func c17RunScenario(t *testing.T, idx int, sc c17Scenario) c17Out {
 		return pp.SpawnChild(ctx, name, actor, WithLongLived())
 	}
 	out := c17Out{}
-	for _, act := range sc.Actions {
+	for ai, act := range sc.Actions {
 		kind, _ := act[0].(string)
 		flag := 0
 		switch kind {
+		case "kill":
+			a := c17I(act[1])
+			w.mu.Lock()
+			p := w.pids[a]
+			w.mu.Unlock()
+			if a == 0 {
+				flag = 1
+			} else if p != nil {
+				w.log(fmt.Sprintf("a%d", a), "killcall", nil)
+				go func() {
+					err := p.Shutdown(ctx)
+					w.log(fmt.Sprintf("a%d", a), "killret", err)
+				}()
+			}
+		case "release_post":
+			a := c17I(act[1])
+			if w.postG[a] == nil || released[a] || w.nPost[a].Load() > 0 {
+				flag = 1
+			} else {
+				// only legal when the actor sits in its PostStop (the generator knows)
+				released[a] = true
+				close(w.postG[a])
+			}
+		case "backlog":
+			a := c17I(act[1])
+			cnt := c17I(act[2])
+			w.mu.Lock()
+			p := w.pids[a]
+			w.mu.Unlock()
+			for i := 0; i < cnt; i++ {
+				if p == nil {
+					flag = 1
+				} else if err := Tell(ctx, p, &c17Plain{}); err != nil {
+					flag = 1
+				}
+			}
 		case "spawn":
 			p, c := c17I(act[1]), c17I(act[2])
 			w.log(fmt.Sprintf("a%d", c), "spawncall", nil)
@@ -258,7 +330,11 @@ func c17RunScenario(t *testing.T, idx int, sc c17Scenario) c17Out {
 			}
 		case "activate":
 			g := c17I(act[1])
-			id, err := sys.GrainIdentity(ctx, fmt.Sprintf("g%d", g), func(context.Context) (Grain, error) { return &c17Grain{id: g, w: w}, nil })
+			gopts := []GrainOption{}
+			if w.deactG[g] != nil {
+				gopts = append(gopts, WithGrainDeactivateAfter(30*time.Millisecond))
+			}
+			id, err := sys.GrainIdentity(ctx, fmt.Sprintf("g%d", g), func(context.Context) (Grain, error) { return &c17Grain{id: g, w: w}, nil }, gopts...)
 			if err != nil || active[g] {
 				if err != nil {
 					flag = 1
@@ -329,30 +405,73 @@ func c17RunScenario(t *testing.T, idx int, sc c17Scenario) c17Out {
 				}
 			}
 		case "stop":
-			if stopped {
-				if err := sys.Stop(ctx); err != nil {
+			if stopIssued {
+				select {
+				case <-stopDone:
+					if err := sys.Stop(ctx); err != nil {
+						flag = 1
+					}
+				default:
 					flag = 1
 				}
 				break
 			}
+			// a grain whose passivation-driven OnDeactivate is held: Stop is called while it executes
+			holding := []int{}
+			for _, g := range sc.PassG {
+				if active[g] {
+					select {
+					case <-w.deactB[g]:
+						holding = append(holding, g)
+					case <-time.After(3 * time.Second):
+					}
+				}
+			}
+			stopIssued = true
 			w.log("driver", "stop_begin", nil)
-			err := sys.Stop(ctx)
-			w.log("driver", "stop_end", err)
-			stopped = true
-			phase = 3
+			go func() {
+				err := sys.Stop(ctx)
+				w.log("driver", "stop_end", err)
+				close(stopDone)
+			}()
+			if len(holding) > 0 {
+				time.Sleep(60 * time.Millisecond)
+				for _, g := range holding {
+					close(w.deactG[g])
+				}
+			}
 			for g := range active {
 				active[g] = false
 			}
-			if err != nil {
-				flag = 3
-			}
-			time.Sleep(10 * time.Millisecond)
 		}
-		out.Steps = append(out.Steps, c17Step{F: flag, O: observe()})
+		// wait for quiescence: the expected observation, stable, or a timeout
+		var obs [][]int
+		timeout := false
+		deadline := time.Now().Add(4 * time.Second)
+		for {
+			obs = observe()
+			if ai < len(sc.Expect) && c17ObsEq(obs, sc.Expect[ai]) {
+				time.Sleep(2 * time.Millisecond)
+				if c17ObsEq(observe(), obs) {
+					break
+				}
+				continue
+			}
+			if time.Now().After(deadline) {
+				timeout = true
+				break
+			}
+			time.Sleep(300 * time.Microsecond)
+		}
+		out.Steps = append(out.Steps, c17Step{F: flag, O: obs, Timeout: timeout})
 	}
 	// let every held handler and gated PreStart go, then make sure the system is down
 	w.log("driver", "release_all", nil)
 	for i := 0; i < n; i++ {
+		if w.postG[i] != nil && !released[i] {
+			released[i] = true
+			close(w.postG[i])
+		}
 		close(w.gate[i])
 		if w.preGOn[i] {
 			select {
@@ -362,8 +481,22 @@ func c17RunScenario(t *testing.T, idx int, sc c17Scenario) c17Out {
 			}
 		}
 	}
-	time.Sleep(20 * time.Millisecond)
-	if !stopped {
+	for g := 0; g < k; g++ {
+		if w.deactG[g] != nil {
+			select {
+			case <-w.deactG[g]:
+			default:
+				close(w.deactG[g])
+			}
+		}
+	}
+	time.Sleep(40 * time.Millisecond)
+	if stopIssued {
+		select {
+		case <-stopDone:
+		case <-time.After(5 * time.Second):
+		}
+	} else {
 		_ = sys.Stop(ctx)
 	}
 	w.log("driver", "end", nil)
@@ -468,4 +601,22 @@ func TestVerifC17Gate(t *testing.T) {
 	w.mu.Unlock()
 	sort.Slice(ev, func(i, j int) bool { return ev[i].Seq < ev[j].Seq })
 	wr.put(c17GateOut{RecvDuringShutdown: n, CheckedRunning: checked, Stopping: stopping, Events: ev})
+}
+
+
+func c17ObsEq(a, b [][]int) bool {
+	if len(a) != len(b) {
+		return false
+	}
+	for i := range a {
+		if len(a[i]) != len(b[i]) {
+			return false
+		}
+		for j := range a[i] {
+			if a[i][j] != b[i][j] {
+				return false
+			}
+		}
+	}
+	return true
 }
